@@ -256,6 +256,7 @@ def check_C08(ctx):
     ctx.traces += run_replays(ctx, 'C08', behs, flags, CLASSES[:3], 'c08')
     gated_numbering(ctx)
     stress_numbering(ctx)
+    stress_log_numbering(ctx)
     # crash recoveries: the committed crash programs (large, fragmented entries; unsynced log) and two generated ones, stopped at
     # hook sites incl. torn final writes; after the recovery the numbering must continue behind the surviving operations
     # (TRACE_Durable!TObs: seq = number of surviving operations; then further writes, reopen, observed again).  The
@@ -311,6 +312,50 @@ def stress_numbering(ctx):
     if bad:
         # the window is a matter of scheduling: any further run of the same kind that breaks the rules again counts as reproduction
         again = [one(100 + k)[1] for k in range(8)] if len(bad) < 2 else [w for _, w in bad[1:]]
+        if any(again):
+            ctx.violations.append({'what': bad[0][1], 'replay': save_replay(ctx, 'store-stress', {'stress': True, 'run': bad[0][0]})})
+        else:
+            ctx.unreproduced.append({'what': bad[0][1]})
+
+
+def stress_log_numbering(ctx):
+    """Full-speed writers against a goroutine that flushes (and so rotates the log) in a loop, nothing traced while it runs; the
+    log directory read back afterwards is the event stream the protocol monitor judges (every record exactly the next number)."""
+    import subprocess
+    runs = 8 if ctx.quick() else 24
+
+    def one(i):
+        d = ctx.sub(f'c08-seqstress-{i}')
+        import shutil
+        shutil.rmtree(os.path.join(d, 'db'), ignore_errors=True)
+        out = os.path.join(d, 'stream.ndjson')
+        args = [ctx.kvh(), 'seq-stress', '-dir', os.path.join(d, 'db'), '-out', out, '-ms', str(1500 if ctx.quick() else 5000),
+                # few writers and a table that is large compared with what is written between two flushes: the flush of the active
+                # table stays cheap, so the log is rotated hundreds of times per second
+                '-writers', str(2 + i % 3), '-mem', str([65536, 65536, 16384, 262144][i % 4]), '-sync', str([0, 0, 1][i % 3])]
+        p = subprocess.run(args, capture_output=True, text=True, timeout=300)
+        if p.returncode != 0 or not os.path.exists(out):
+            raise Infra(f'seq-stress run {i}: rc={p.returncode} {p.stderr[-300:]}')
+        lines = open(out).read().splitlines()
+        # TLC time grows with the length: the head of the log and the part around every irregularity would be enough, the first
+        # 150000 events are what is judged
+        if len(lines) > 150000:
+            open(out, 'w').write('\n'.join(lines[:150000]) + '\n')
+        ok, hw, st, outp = tlc_trace(ctx, 'TRACE_StoreProto', 'TRACE_StoreProto.cfg', out, timeout=900, tag=f'c08-seqstress-{i}')
+        if ok:
+            return len(lines), None
+        ev = json.loads(lines[hw - 1]) if hw and hw <= len(lines) else {}
+        prev = json.loads(lines[hw - 2]) if hw and hw >= 2 else {}
+        return len(lines), (f"full-speed writers and flushes (run {i}): record numbered {ev.get('a')} follows record numbered {prev.get('a')} in the log "
+                            f"{ev.get('msg', '')}")
+    with cf.ThreadPoolExecutor(max_workers=4) as ex:
+        res = list(ex.map(one, range(runs)))
+    ctx.traces += runs
+    ctx.notes['stress_log_records_read_back'] = sum(n for n, _ in res) // 2
+    bad = [(i, w) for i, (n, w) in enumerate(res) if w]
+    if bad:
+        # a matter of scheduling: any further run of the same kind that breaks the rule again counts as reproduction
+        again = [w for _, w in bad[1:]] or [one(100 + k)[1] for k in range(8)]
         if any(again):
             ctx.violations.append({'what': bad[0][1], 'replay': save_replay(ctx, 'store-stress', {'stress': True, 'run': bad[0][0]})})
         else:
@@ -378,6 +423,7 @@ def replay_saved(ctx, payload):
     if payload.get('stress'):
         ctx.violations = []
         stress_numbering(ctx)
+        stress_log_numbering(ctx)
         return {'what': ctx.violations[0]['what']} if ctx.violations else None
     if 'prog' in payload:
         from props import crash
